@@ -5,7 +5,11 @@ INVARIANTS Emit
 CHECK_DEADLOCK FALSE
 CONSTANTS
   Mode = "wrap"
-  MaxDepth = 2
+  MaxDepth = 3
   WrapSet = "mid"
   SlRange = 2
   EmitAst = TRUE
+  ExcludeFilterOnNonArray = TRUE
+  ExcludeMergeNoOverride = TRUE
+  ExcludeNotBeforePipe = TRUE
+  ExcludePipeIntoLiteral = TRUE
